@@ -33,7 +33,7 @@ PROPS = {
     "C11": {"test": "TestC11", "modelled": PKT_MODELLED, "assumes": PKT_ASSUMES},
     "C13": {"test": "TestC13", "modelled": PKT_MODELLED, "assumes": PKT_ASSUMES},
     "C02": {"test": "TestC02", "modelled": PKT_MODELLED, "assumes": PKT_ASSUMES},
-    "C09": {"test": "TestC09", "modelled": PKT_MODELLED, "assumes": PKT_ASSUMES},
+    "C09": {"test": "TestC09", "modelled": PKT_MODELLED + "; token sends: " + APP_MODELLED, "assumes": PKT_ASSUMES, "harness_vo": ["Mixed", "Net", "AppNet"]},
     "C10": {"test": "TestC10", "modelled": PKT_MODELLED, "assumes": PKT_ASSUMES},
     "C12": {
         "test": "TestC12",
